@@ -130,7 +130,7 @@ fn pipeline(t: &mut Tape, ctx: &mut Ctx) -> CheckResult {
         if cur_d.nodes.len() > 40 {
             break; // keep sizes bounded
         }
-        let what: String;
+        let mut what: String;
         match t.choice(15) {
             0 => {
                 let tl = type_list(t, al, 3);
@@ -269,6 +269,20 @@ fn pipeline(t: &mut Tape, ctx: &mut Ctx) -> CheckResult {
                 let got = from_lax(&g).map_err(|e| ctx.fail("output-well-formed", format!("{what}: {e}")))?;
                 super::c11::model_delete_nodes(&mut l, &del, true);
                 ensure!(ctx, got == l, "output-well-formed", "{what}: lax diagram after delete_nodes differs from the list model\n  got : {}\n  want: {}", got.pretty(), l.pretty());
+                // ... and a few hyperedges; the id list may repeat ids and be longer than the edge list
+                let m = l.d.edges.len();
+                if m > 0 && t.chance(1, 2) {
+                    let dele: Vec<usize> = (0..t.range(1, 2 * m + 1)).map(|_| t.choice(m)).collect();
+                    what = format!("{what} ; delete_edges({:?})", dele);
+                    g.delete_edges(&dele.iter().map(|&e| open_hypergraphs::lax::EdgeId(e)).collect::<Vec<_>>());
+                    let mut k = 0;
+                    l.d.edges.retain(|_| {
+                        k += 1;
+                        !dele.contains(&(k - 1))
+                    });
+                    let got = from_lax(&g).map_err(|e| ctx.fail("output-well-formed", format!("{what}: {e}")))?;
+                    ensure!(ctx, got == l, "output-well-formed", "{what}: lax diagram after delete_edges differs from the list model\n  got : {}\n  want: {}", got.pretty(), l.pretty());
+                }
                 g.quotient().map_err(|_| ctx.fail("output-well-formed", format!("{what}: the edited diagram cannot be quotiented")))?;
                 cur = g.to_strict();
                 let want = l.strictify().expect("consistent pairs survive deletion");
